@@ -9,6 +9,7 @@ import os
 from common import CORPUS_DIR, call, canon, err_class, shrink_list
 import c19_build as B
 import c19_gen as G
+import c19_dims as D
 
 RULE = ("two case kinds. params: a parameter class of draw_params.py (MPDrawParams in ~1/3 of the cases) constructed with random "
         "keyword values, then 1..7 assignments setattr(group at a random path, name, value) with names declared in the target "
@@ -20,13 +21,20 @@ RULE = ("two case kinds. params: a parameter class of draw_params.py (MPDrawPara
         "trajectory / with set-based prediction incl. interval time steps and holes, phantom, environment; shapes rectangle, "
         "circle, polygon, group; exact and uncertain positions; signal series) + 0..2 planning problems, drawn with a parameter "
         "setting: window begin chosen around every initial/final time step (before, inside, after the horizons), end = begin, "
-        "begin+1, begin+3, another horizon point, begin+40 or begin-1; in 1/3 of the cases 1..3 earlier frames were drawn and rendered on the same renderer (whole scenario or obstacles only, keep_static_artists True/False); mode 'plain' = shapes on, icons/signals/trajectories/"
+        "begin+1, begin+3, another horizon point, begin+40 or begin-1; in ~45% of the cases 1..3 earlier frames ran on the same renderer: render(keep_static_artists True/False) frames, create_video-style frames (remove_dynamic, clear, draws, render_dynamic), draws that raise half-way followed by clear(), whole scenario or obstacles only, fresh parameter objects or one shared object whose window is re-set, the scenario changed in place between frames (obstacle removed / added, prediction dropped / replaced, trajectory re-assigned, initial state re-set), often re-drawing the same step; the selected frame is drawn through one of six public entry points (scenario.draw, draw_scenario, renderer's own parameters with draw_params=None, network + draw_list, per object with its sub-group, list of parameter objects), on a renderer constructed with / without draw_params, plot_limits (flat, nested, 'auto'), focus_obstacle, figsize, rendered with or without a file name, after read-only queries; lattice cases also set style values (colours, widths, z-orders, opacities; int where float is usual); value classes: obstacle id 0, off-centre / rotated obstacle shapes, shuffled occupancy sets, 3-D lanelet vertices, signs / lights without position, inactive cycles, obstacle history; mode 'plain' = shapes on, icons/signals/trajectories/"
         "extra occupancies/history off (other flags random), mode 'lattice' = every boolean field of the 87 nested groups "
         "flipped with probability 0/0.1/0.5/0.9, history steps, id filters (none, empty, subset, superset, unknown ids) for "
         "lanelets, planning problems, traffic signs. Positions, orientations and velocities of obstacle states are exact "
         "or uncertain (shape / interval). "
         "non-trivial = every case; distinct = distinct canonical JSON of the case")
-ASSUMPTIONS = ["clause (b) is stated for time windows time_begin <= time_end; an inverted window is outside the quantifier "
+ASSUMPTIONS = ["harness/c19_dims.py lists every parameter field, BaseParam / MPRenderer operation and constructor parameter that can "
+               "influence the observations with how it is varied; checked against the real signatures on every run (exit 2 on growth)",
+               "style values are type-correct and sensible (scale factors, radii, widths > 0; opacity / fading in [0, 1]; valid "
+               "matplotlib colours): zero scale (3.0 / scale_factor) or an alpha > 1 are outside 'every parameter setting'",
+               "create_video needs ffmpeg and writes a file: outside; its per-frame step is replayed as 'video' style frames; "
+               "rasterisation is claimed for render() only",
+               "scenario changes between frames use the public setters / add / remove; Scenario.translate_rotate is C05's subject",
+               "clause (b) is stated for time windows time_begin <= time_end; an inverted window is outside the quantifier "
                "(C19_witness_inverted_window, corpus/C19/witness_inverted_window.json; counted as excluded by the oracle)",
                "set-based predictions have at least one occupancy (XSD); an empty one makes final_time_step raise "
                "(C19_witness_empty_set_prediction, corpus/C19/outside_empty_set_prediction.json: model and code fail alike)",
@@ -41,10 +49,14 @@ ASSUMPTIONS = ["clause (b) is stated for time windows time_begin <= time_end; an
 TRUSTED = ["harness expansion of model items to shapes uses the implementation's own occupancy_at_time / state_at_time_step "
            "(the model selects *which* occupancy is drawn, not its geometry)"]
 REQUIRED_BUCKETS = ["params:ctor-window", "params:top-level", "params:nested", "params:group-value", "params:deeper-only",
-                    "params:not-declared", "params:window", "params:self-referential", "params:partly-held", "draw:plain", "draw:lattice", "window:before", "window:inside",
+                    "params:not-declared", "params:window", "params:self-referential", "params:partly-held", "params:item-assignment", "draw:plain", "draw:lattice", "window:before", "window:inside",
                     "window:after", "window:tb=te", "obst:static", "obst:dyn-none", "obst:dyn-traj", "obst:dyn-set",
                     "obst:phantom", "obst:env", "obst:uncertain-init", "lanelets:all", "lanelets:subset", "lanelets:none-selected",
-                    "problems:filtered", "raster", "renderer-reused", "frames:keep-static", "frames:obstacles-only", "outside-quantifier", "anchor:center", "reading:mid", "border-vertices", "light-labels", "set-based-later-steps", "hidden-by-guard", "icon", "history"]
+                    "problems:filtered", "raster", "renderer-reused", "frames:keep-static", "frames:obstacles-only", "frames:failed-draw-then-clear",
+                    "frames:scenario-mutated", "frames:mutated-same-step", "frames:same-params-object", "style:video", "style:render", "render:filename",
+                    "queries-before-draw", "renderer:plot-limits", "renderer:focus-obstacle", "renderer:ctor-params",
+                    "entry:scenario.draw", "entry:draw_scenario", "entry:renderer-params", "entry:network+draw_list",
+                    "entry:per-object", "entry:list-of-params", "params:style-values", "outside-quantifier", "anchor:center", "reading:mid", "border-vertices", "light-labels", "set-based-later-steps", "hidden-by-guard", "icon", "history"]
 WORKERS = {"quick": 1, "thorough": 8}
 
 PRIV = "_BaseParam__initialized"
@@ -226,7 +238,7 @@ def gen_params_case(ctx):
                 allowed = list(path)
         else:
             v = {"v": g_plain(r, name, cat)}
-        ops.append([list(path), name, v])
+        ops.append([list(path), name, v] + (["setitem"] if r.random() < 0.25 else []))
     return {"kind": "params", "root": root, "kw": kw, "ops": ops}
 
 
@@ -277,7 +289,8 @@ def run_params_case(ctx, case, model=True):
                              {**case, "ops": []})
     # ---- assignments
     impl, trees_in = [], []
-    for i, (path, name, v) in enumerate(case["ops"]):
+    for i, (path, name, v, *via) in enumerate(case["ops"]):
+        via = via[0] if via else "setattr"
         val = B.mk_value(v)
         sub = {**case, "ops": case["ops"][:i + 1]}
         tres = call(B.follow, root, path)
@@ -305,7 +318,14 @@ def run_params_case(ctx, case, model=True):
             if any(x == val and type(x) is type(val) for x in held) and any(x != val for x in held):
                 ctx.tag("params:partly-held")  # some nested groups already hold the value, others deviate
         selfref = is_group and declares_deep(type(val).__name__, name)
-        res = call(setattr, target, name, val)
+        if via == "setitem":  # the item form of the same assignment, after a read of a missing item (KeyError, no effect)
+            ctx.tag("params:item-assignment")
+            miss = call(lambda: target["no_such_parameter"])
+            if miss[:2] != ("err", "key"):
+                ctx.fail("C19/params.getitem/missing-item-no-KeyError", f"group['no_such_parameter'] gives {miss[:2]}", sub)
+            res = call(target.__setitem__, name, val)
+        else:
+            res = call(setattr, target, name, val)
         if selfref:
             # outside the property's quantifier: only the correspondence (RecursionError <-> CR.Params.Grp.setPy) is checked;
             # the objects are cyclic after the error, so the history ends here
@@ -337,7 +357,7 @@ def run_params_case(ctx, case, model=True):
         trees_in.append([path, name, spec_tree(v)])
     if model and case["ops"]:
         m = ctx.driver.ask("C19", "setattr", {"tree": dump(B.mk_value({"g": case["root"], "kw": kw})), "ops": trees_in})
-        for i, (a, b) in enumerate(zip(impl, m)):
+        for i, (a, b) in enumerate(zip(impl, m)):  # noqa: B007
             if not ctx.compare({**case, "ops": case["ops"][:i + 1]}, a, b,
                                f"BaseParam.__setattr__ vs CR.Params.Grp.setAt, step {i}: {case['ops'][i][:2]}"):
                 break
@@ -418,6 +438,41 @@ OBSTACLE_FLAGS = {"draw_shape", "draw_icon", "draw_signals", "draw_trajectory", 
                   "draw_direction", "draw_initial_state", "draw_arrow", "fill_lanelet", "draw_continuous"}
 
 
+_DEFAULT = None
+
+
+def fresh_default():
+    global _DEFAULT
+    if _DEFAULT is None:
+        from commonroad.visualization.draw_params import MPDrawParams
+        _DEFAULT = MPDrawParams()
+    return _DEFAULT
+
+
+MUTATIONS = ["remove", "drop-prediction", "set-prediction", "retime-trajectory", "initial-state", "add"]
+
+
+def g_mutation(r, spec):
+    k = r.choice(MUTATIONS)
+    dyn = [o for o in spec["obstacles"] if o["role"] == "dynamic"]
+    m = {"kind": k, "idx": r.randrange(8)}
+    if k == "set-prediction":
+        if not dyn:
+            return None
+        tgt = dyn[m["idx"] % len(dyn)]
+        donor = G.g_obstacle(r, 9999, "dynamic")
+        donor["init"]["t"] = tgt["init"]["t"]
+        if donor.get("pred", {}).get("kind") == "set":  # occupancies of the donor start after the target's initial step
+            donor["pred"] = G.g_set_pred(r, tgt["init"]["t"] + 1)
+        m["donor"] = donor
+    elif k == "add":
+        spec["_next_id"] = spec.get("_next_id", 9000) + 1
+        m["obstacle"] = G.g_obstacle(r, spec["_next_id"], r.choice(["static", "dynamic", "env"]))
+    elif k == "initial-state":
+        m["pos"] = [r.choice(G.Q) * 2, r.choice(G.Q)]
+    return m
+
+
 def gen_draw_case(ctx):
     r = ctx.rng
     spec = G.g_network(r)
@@ -452,6 +507,13 @@ def gen_draw_case(ctx):
             sets.append([[], "speed_limit_unit", {"v": r.choice(["auto", "mph", "kmh"])}])
         if r.random() < 0.3:
             sets.append([[], "show_traffic_signs", {"v": r.choice([None, [], [500], [500, 501, 7]])}])
+        if r.random() < 0.35:  # style values: colours, widths, z-orders, opacities ... (type-correct, int where float is usual)
+            plain = [(pp, k) for pp, k, v in walk_fields(fresh_default()) if D.PARAM_FIELDS[k][1] is not None and not isinstance(v, bool)]
+            for pp, k in r.sample(plain, min(len(plain), r.choice([3, 10, 40]))):
+                sets.append([pp if r.random() < 0.7 else [], k, {"v": r.choice(D.PARAM_FIELDS[k][1])}])
+            spec_style = True
+        else:
+            spec_style = False
         if r.random() < 0.2:  # a window set on a sub-group only
             sets.append([r.choice([["dynamic_obstacle"], ["phantom_obstacle"], ["dynamic_obstacle", "trajectory"],
                                    ["static_obstacle"], ["lanelet_network"]]), r.choice(["time_begin", "time_end"]),
@@ -486,17 +548,54 @@ def gen_draw_case(ctx):
         kw = {"time_begin": {"v": tb}, "time_end": {"v": te}}
     spec["params"] = {"root": "MPDrawParams", "kw": kw, "sets": sets}
     spec.update({"kind": "draw", "mode": mode, "tb": tb, "te": te, "raster": r.random() < 0.4})
-    if r.random() < 0.35:
-        # earlier frames on the same renderer: each draws the whole scenario or only the obstacles and is rendered with
-        # keep_static_artists True / False; the static map is normally drawn only while none is kept
-        frames, kept = [], 0
+    if mode == "lattice" and spec_style:
+        spec["style_values"] = True
+    if r.random() < 0.45:
+        # earlier frames on the same renderer. Styles: 'render' = draws + render(keep_static_artists=…); 'failed' = a draw that
+        # raises half-way (invalid extra obstacle) followed by clear(); 'video' = create_video's frame step (remove_dynamic, clear,
+        # draws, render_dynamic) — once a video frame occurred all later frames are video frames (render_dynamic does not clear).
+        # The static map is normally drawn only while none is kept. Between frames the scenario may be changed in place and the
+        # parameter object may be one shared object whose window is re-set.
+        frames, kept, video = [], 0, False
+        same = r.random() < 0.35
         for _ in range(r.choice([1, 1, 2, 3])):
-            nw = kept == 0 or r.random() < 0.15
-            keep = r.random() < 0.5
-            frames.append({"dt": r.choice([1, 1, -1, 2, 0]), "network": nw, "keep": keep})
-            kept = kept + nw if keep else 0
+            st = "video" if video else r.choice(["render", "render", "render", "failed", "video"])
+            video = video or st == "video"
+            nw = st == "video" or kept == 0 or r.random() < 0.15
+            keep = st == "render" and r.random() < 0.5
+            fr = {"dt": r.choice([1, 1, -1, 2, 0]), "network": nw, "keep": keep, "style": st,
+                  "entry": r.choice(ENTRIES_FULL), "params": "same" if same else "fresh"}
+            if r.random() < 0.2 and st != "failed":
+                fr["mutate"] = g_mutation(r, spec)
+            frames.append(fr)
+            kept = 0 if st in ("video", "failed") else (kept + nw if keep else 0)
         spec["frames"] = frames
-        spec["network"] = kept == 0 or r.random() < 0.15
+        spec["style"] = "video" if video or r.random() < 0.1 else "render"
+        spec["network"] = spec["style"] == "video" or kept == 0 or r.random() < 0.15
+        spec["main_params"] = "same" if same else "fresh"
+        if r.random() < 0.3:
+            spec["mutate"] = g_mutation(r, spec)
+            if spec["mutate"] and frames[-1]["style"] != "failed" and r.random() < 0.75:
+                frames[-1]["dt"] = 0  # the same time step is drawn before and after the change of the scenario
+    elif r.random() < 0.05:
+        spec["style"] = "video"
+    if r.random() < 0.6:
+        spec["entry"] = r.choice(ENTRIES_FULL if spec.get("network", True) else ENTRIES_OBST)
+    rc = {}
+    if r.random() < 0.35:
+        rc["plot_limits"] = r.choice([[-30, 60, -20, 20], [-30.5, 60.0, -20.25, 20.0], [[-30, 60], [-20, 20]], "auto"])
+    if spec["obstacles"] and r.random() < 0.25:
+        rc["focus"] = r.randrange(len(spec["obstacles"]))
+    if r.random() < 0.2:
+        rc["figsize"] = r.choice([[3, 2], [2.5, 2.5]])
+    if r.random() < 0.2:
+        rc["ctor_params"] = True
+    if rc:
+        spec["renderer"] = rc
+    spec["queries"] = r.random() < 0.3
+    spec["savefig"] = spec.get("style", "render") == "render" and r.random() < 0.08
+    if nob and r.random() < 0.1:
+        spec["obstacles"][0]["id"] = 0
     return spec
 
 
@@ -693,13 +792,6 @@ def model_draw(ctx, p, obstacles):
     return ctx.driver.ask("C19", "draw_tree", {"tree": dump(p), "obstacles": descriptors(p, obstacles)})
 
 
-def model_frames(ctx, frames, obstacles):
-    """frames: [(parameter object, draws the network, keep_static_artists)] on one renderer -> what every frame shows."""
-    return ctx.driver.ask("C19", "frames", {"frames": [
-        {"tree": dump(q), "obstacles": descriptors(q, obstacles), "draw_network": bool(nw), "keep": bool(keep)}
-        for q, nw, keep in frames]})
-
-
 def expected_of(items, obstacles, p):
     """Model items of one frame -> expected canonical patches and labels."""
     expected, labels = [], []
@@ -716,18 +808,6 @@ def observe_buffers(rnd):
     patches = [patch_canon(x) for x in rnd.obstacle_patches]
     labels = [[canon(t.get_position()[0]), canon(t.get_position()[1]), t.get_text()] for t in rnd.dynamic_labels]
     return patches, labels
-
-
-def draw_frame(rnd, sc, pps, q, network):
-    """One frame's draws: the whole scenario, or only the obstacles on top of the kept static map."""
-    if network:
-        sc.draw(rnd, q)
-    else:
-        rnd.draw_list(sc.obstacles, q)
-    obs = observe_buffers(rnd)  # the planning problems put their own markers into the same buffer afterwards
-    if network:
-        pps.draw(rnd, q)
-    return obs
 
 
 def light_texts(ax):
@@ -776,7 +856,175 @@ def prescribed_shapes(ctx, obstacles, tb, te):
     return required, allowed
 
 
+ENTRIES_FULL = ["scenario.draw", "draw_scenario", "renderer-params", "network+draw_list", "per-object", "list-of-params"]
+ENTRIES_OBST = ["draw_list", "per-object", "list-of-params", "renderer-params"]
+
+
+def group_of(q, o):
+    """The parameter group draw_scenario hands to an obstacle of this role (mp_renderer.py:464-472)."""
+    from commonroad.scenario.obstacle import DynamicObstacle, EnvironmentObstacle, StaticObstacle
+    return (q.dynamic_obstacle if isinstance(o, DynamicObstacle) else q.static_obstacle if isinstance(o, StaticObstacle)
+            else q.environment_obstacle if isinstance(o, EnvironmentObstacle) else q.phantom_obstacle)
+
+
+def draw_obstacles(rnd, sc, q, entry):
+    """The public ways of drawing all obstacles of a scenario with one parameter object."""
+    obs = sc.obstacles
+    if entry == "per-object":
+        for o in obs:
+            o.draw(rnd, group_of(q, o))
+    elif entry == "list-of-params":
+        rnd.draw_list(obs, [q] * len(obs))
+    elif entry == "renderer-params":
+        rnd.draw_params = q
+        rnd.draw_list(obs)
+    else:
+        rnd.draw_list(obs, q)
+
+
+def draw_frame(rnd, sc, pps, q, network, entry):
+    """One frame's draws — the whole scenario or only the obstacles on top of a kept static map — through one of the
+    public entry points; returns the buffers as they are before the planning problems add their own markers."""
+    if not network:
+        draw_obstacles(rnd, sc, q, entry if entry in ENTRIES_OBST else "draw_list")
+    elif entry == "draw_scenario":
+        rnd.draw_scenario(sc, q)
+    elif entry == "renderer-params":
+        rnd.draw_params = q
+        sc.draw(rnd)
+    elif entry == "network+draw_list":
+        sc.lanelet_network.draw(rnd, q)
+        rnd.draw_list(sc.obstacles, q)
+    elif entry == "per-object":
+        sc.lanelet_network.draw(rnd, q.lanelet_network)
+        draw_obstacles(rnd, sc, q, "per-object")
+    elif entry == "list-of-params":
+        rnd.draw_list([sc.lanelet_network] + sc.obstacles, [q] * (1 + len(sc.obstacles)))
+    else:
+        sc.draw(rnd, q)
+    return observe_buffers(rnd)
+
+
+def apply_mutation(sc, mut):
+    """In-place changes of the scenario between two frames, through the public setters / scenario operations."""
+    import numpy as np
+    from commonroad.scenario.trajectory import Trajectory
+    if not mut:
+        return
+    k = mut["kind"]
+    dyn = sc.dynamic_obstacles
+    if k == "add":
+        sc.add_objects(B.mk_obstacle(mut["obstacle"]))
+    elif not dyn:
+        return
+    else:
+        o = dyn[mut["idx"] % len(dyn)]
+        if k == "remove":
+            sc.remove_obstacle(o)
+        elif k == "drop-prediction":
+            o.prediction = None
+        elif k == "set-prediction":
+            o.prediction = B.mk_obstacle({**mut["donor"], "id": 9999}).prediction
+        elif k == "retime-trajectory" and getattr(o.prediction, "trajectory", None) is not None:
+            tr = o.prediction.trajectory
+            states = [st for st in tr.state_list][:max(1, len(tr.state_list) - 1)]
+            o.prediction.trajectory = Trajectory(tr.initial_time_step, states)  # setter: the cached occupancy set must go
+        elif k == "initial-state":
+            st = o.initial_state
+            st.position = B.mk_pos(mut["pos"])
+            o.initial_state = st  # the same object handed back to the setter
+
+
+def read_only_queries(sc, pps, q, tb):
+    """Queries that must not change what is drawn afterwards (they fill caches / materialise lazy attributes)."""
+    import copy
+    for o in sc.obstacles:
+        o.occupancy_at_time(tb)
+        o.occupancy_at_time(tb + 1)
+        pr = getattr(o, "prediction", None)
+        if pr is not None and pr.occupancy_set:
+            getattr(pr.occupancy_set[0].shape, "shapely_object", None)
+            pr.final_time_step  # noqa: B018
+        if hasattr(o, "state_at_time"):
+            call(o.state_at_time, tb)
+    for l in sc.lanelet_network.lanelets:
+        l.polygon  # noqa: B018
+        l.distance  # noqa: B018
+    sc.lanelet_network.map_inc_lanelets_to_intersections  # noqa: B018
+    repr(q)
+    copy.deepcopy(q)
+    q["time_begin"], q.dynamic_obstacle["time_end"]  # noqa: B018
+    dataclasses.asdict(q.dynamic_obstacle)
+    list(pps.planning_problem_dict.items())
+
+
+def mk_plot_limits(spec):
+    return spec  # None | [x0, x1, y0, y1] | [[x0, x1], [y0, y1]] | "auto"
+
+
+_PBLOB = {}
+
+
+def fresh_params(case):
+    """A parameter object in the state the case prescribes. The constructor + setattr history is executed once per case;
+    further objects of the same state are clones (pickle round trip), which is ~100x cheaper."""
+    import pickle
+    key = json.dumps(case["params"], sort_keys=True)
+    if _PBLOB.get("key") != key:
+        _PBLOB.clear()
+        _PBLOB.update(key=key, blob=pickle.dumps(B.mk_params(case["params"])))
+    return pickle.loads(_PBLOB["blob"])
+
+
+def timeline(case, tb, te):
+    """Every frame of the case (earlier frames + the selected one) on a TWIN of the scenario and of the parameter object:
+    [(style, parameter object as it is when the frame is drawn, obstacles then, draws the network, keep flag)].
+    Nothing of the implementation's drawing code runs here."""
+    import copy
+    sc2 = B.mk_scenario(case)
+    shared = fresh_params(case)
+    out = []
+    frames = list(case.get("frames") or ([{"dt": 1, "network": True, "keep": False}] if case.get("reuse") else []))
+    main = {"dt": 0, "network": case.get("network", True), "keep": False, "style": case.get("style", "render"),
+            "params": case.get("main_params", "fresh"), "mutate": case.get("mutate")}
+    mutated = any(fr.get("mutate") for fr in frames + [main])
+    for fr in frames + [main]:
+        apply_mutation(sc2, fr.get("mutate"))
+        if fr.get("params") == "same":
+            shared.time_begin, shared.time_end = tb + fr["dt"], te + fr["dt"]
+            q = copy.deepcopy(shared)
+        else:
+            q = fresh_params(case)
+            q.time_begin, q.time_end = tb + fr["dt"], te + fr["dt"]
+        obs = list(sc2.obstacles)
+        out.append([fr.get("style", "render"), q, copy.deepcopy(obs) if mutated else obs, bool(fr["network"]), bool(fr["keep"]),
+                    dump(q), descriptors(q, obs)])
+    return sc2, out
+
+
+def model_ops(ctx, tl):
+    """Renderer operations of the timeline -> what the model says every show displays (None for a frame that does not show)."""
+    ops, shows, video_started = [], [], False
+    for style, q, obs, nw, keep, tree, desc in tl:
+        d = {"op": "draw", "tree": tree, "obstacles": desc, "draw_network": nw}
+        if style == "failed":
+            ops.append({"op": "clear", "keep": False})  # whatever the failing draw left behind is cleared explicitly
+            shows.append(False)
+            continue
+        if style == "video":
+            if not video_started:  # create_video's init_frame: draw everything, render_static (no show of the buffers, no clear)
+                ops.append({**d, "draw_network": True})
+                video_started = True
+            ops += [{"op": "clear", "keep": False}, d, {"op": "render_dynamic"}]
+        else:
+            ops += [d, {"op": "render", "keep": keep}]
+        shows.append(True)
+    res = iter(ctx.driver.ask("C19", "ops", {"ops": ops}))
+    return [next(res) if sh else None for sh in shows]
+
+
 def run_draw_case(ctx, case, model=True):
+    import tempfile
     import matplotlib.collections as mcoll
     import matplotlib.text as mtext
     from commonroad.prediction.prediction import SetBasedPrediction
@@ -787,11 +1035,14 @@ def run_draw_case(ctx, case, model=True):
     sc, pps = B.mk_scenario(case), B.mk_pps(case)
     ax = get_ax()
     try:
-        p = B.mk_params(case["params"])
+        sc2, tl = timeline(case, tb, te)
     except Exception as e:  # noqa
         return fail_exc(ctx, "params", e, case)
-    obstacles = sc.obstacles
-    ctx.tag("draw:" + mode)
+    style, p, obstacles, main_network = tl[-1][:4]      # the selected frame, on the twin objects
+    prev = tl[:-1]
+    entry = case.get("entry", "scenario.draw")
+    rcfg = case.get("renderer", {})
+    ctx.tag("draw:" + mode, "entry:" + entry, "style:" + style)
     for o in obstacles:
         if isinstance(o, StaticObstacle):
             ctx.tag("obst:static")
@@ -811,7 +1062,7 @@ def run_draw_case(ctx, case, model=True):
     if tb == te:
         ctx.tag("window:tb=te")
     # every coverage bucket is decided by the case and the model, before the implementation draws anything
-    net = sc.lanelet_network
+    net = sc2.lanelet_network
     lids = [l.lanelet_id for l in net.lanelets]
     draw_ids = p.lanelet_network.draw_ids
     fill_on = p.lanelet_network.lanelet.fill_lanelet
@@ -823,37 +1074,51 @@ def run_draw_case(ctx, case, model=True):
         ctx.tag("problems:filtered")
     if case.get("raster"):
         ctx.tag("raster")
-    hist_frames = case.get("frames") or ([{"dt": 1, "network": True, "keep": False}] if case.get("reuse") else [])
-    main_network = case.get("network", True)
+    if case.get("savefig"):
+        ctx.tag("render:filename")
+    if case.get("queries"):
+        ctx.tag("queries-before-draw")
+    if case.get("style_values"):
+        ctx.tag("params:style-values")
+    if rcfg.get("plot_limits") is not None:
+        ctx.tag("renderer:plot-limits")
+    if rcfg.get("focus") is not None:
+        ctx.tag("renderer:focus-obstacle")
+    if rcfg.get("ctor_params"):
+        ctx.tag("renderer:ctor-params")
     kept = 0  # lanelet-network drawings held by the renderer when the selected frame is drawn (independent count)
-    for fr in hist_frames:
-        kept = kept + bool(fr["network"]) if fr["keep"] else 0
-    networks = kept + bool(main_network)
-    if hist_frames:
+    for st_, _, _, nw_, keep_, *_ in prev:
+        kept = 0 if st_ in ("video", "failed") else (kept + nw_ if keep_ else 0)
+    networks = (0 if style == "video" else kept) + bool(main_network)
+    if prev:
         ctx.tag("renderer-reused")
-        if any(fr["keep"] for fr in hist_frames):
+        if any(fr_[4] for fr_ in prev if fr_[0] == "render"):
             ctx.tag("frames:keep-static")
         if not main_network:
             ctx.tag("frames:obstacles-only")
+        if any(fr_[0] == "failed" for fr_ in prev):
+            ctx.tag("frames:failed-draw-then-clear")
+        if any(fr.get("mutate") for fr in (case.get("frames") or [])) or case.get("mutate"):
+            ctx.tag("frames:scenario-mutated")
+        if case.get("mutate") and case["frames"][-1]["dt"] == 0 and case["frames"][-1].get("style") != "failed":
+            ctx.tag("frames:mutated-same-step")
+        if any(fr.get("params") == "same" for fr in (case.get("frames") or [])) and case.get("main_params") == "same":
+            ctx.tag("frames:same-params-object")
     if p.lanelet_network.lanelet.draw_border_vertices:
         ctx.tag("border-vertices")
     prescribed = prescribed_shapes(ctx, obstacles, tb, te) if mode == "plain" and te >= tb and not case.get("outside") else None
-    tl = p.lanelet_network.traffic_light
-    light_labels = bool(main_network and tl.draw_traffic_lights and not p.lanelet_network.traffic_sign.draw_traffic_signs
-                        and net.traffic_lights)
+    tl_ = p.lanelet_network.traffic_light
+    light_labels = bool(main_network and style == "render" and tl_.draw_traffic_lights
+                        and not p.lanelet_network.traffic_sign.draw_traffic_signs and net.traffic_lights)
     if light_labels:
         ctx.tag("light-labels")
-    res, prev, mframes = None, [], None
-    for fr in hist_frames:
-        q = B.mk_params(case["params"])
-        q.time_begin, q.time_end = tb + fr["dt"], te + fr["dt"]
-        prev.append((q, fr["network"], fr["keep"]))
+    res, mframes = None, None
     if model and not case.get("outside"):
-        if prev:
-            mframes = model_frames(ctx, prev + [(p, main_network, False)], obstacles)
+        if prev or style == "video":
+            mframes = model_ops(ctx, tl)
             res = {"ok": mframes[-1]["patches"]}
         else:
-            res = model_draw(ctx, p, obstacles)
+            res = ctx.driver.ask("C19", "draw_tree", {"tree": tl[-1][5], "obstacles": tl[-1][6]})
         for its in (res or {}).get("ok", []):
             for it in its:
                 ctx.tag({"icon": "icon", "hist": "history"}.get(it[0], "item:" + it[0]))
@@ -861,26 +1126,82 @@ def run_draw_case(ctx, case, model=True):
                     ctx.tag("anchor:center")
                 if it[0] in ("icon", "state") and "mid" in json.dumps(it):
                     ctx.tag("reading:mid")
-    # ------------------------------------------------------------------ draw (scenario), observe, draw (problems), render
-    rnd = MPRenderer(ax=ax)
-    for i, (q, nw, keep) in enumerate(prev):
-        # the same renderer has already drawn and rendered other time steps (as create_video does frame by frame),
-        # with the static map re-drawn every frame or kept by render(keep_static_artists=True)
+    # ------------------------------------------------------------------ the implementation: same history on the real objects
+    try:
+        shared = fresh_params(case)
+        focus = sc.obstacles[rcfg["focus"] % len(sc.obstacles)] if rcfg.get("focus") is not None and sc.obstacles else None
+        kw = {"ax": ax, "plot_limits": mk_plot_limits(rcfg.get("plot_limits")), "focus_obstacle": focus}
+        if rcfg.get("figsize"):
+            kw["figsize"] = tuple(rcfg["figsize"])
+        if rcfg.get("ctor_params"):
+            kw["draw_params"] = fresh_params(case)
+        rnd = MPRenderer(**kw)
+    except Exception as e:  # noqa
+        return fail_exc(ctx, "MPRenderer", e, case)
+    frames_spec = list(case.get("frames") or ([{"dt": 1, "network": True, "keep": False}] if case.get("reuse") else []))
+    video_started = False
+
+    def real_params(fr):
+        if fr.get("params") == "same":
+            shared.time_begin, shared.time_end = tb + fr["dt"], te + fr["dt"]
+            return shared
+        q = fresh_params(case)
+        q.time_begin, q.time_end = tb + fr["dt"], te + fr["dt"]
+        return q
+
+    def video_init(q):
+        rnd.draw_list([sc, pps], q)
+        rnd.render_static()
+
+    for i, fr in enumerate(frames_spec):
+        # the same renderer has already drawn and rendered other time steps: render(keep_static_artists=…) frames, frames in
+        # the manner of create_video (remove_dynamic, clear, draw, render_dynamic), draws that raised followed by clear()
         try:
-            got, glabs = draw_frame(rnd, sc, pps, q, nw)
+            apply_mutation(sc, fr.get("mutate"))
+            q = real_params(fr)
+            st_ = fr.get("style", "render")
+            if st_ == "failed":
+                bad = B.mk_scenario({**case, "obstacles": case["obstacles"] + [
+                    {"id": 9998, "role": "dynamic", "type": "CAR", "shape": ["rect", 2.0, 1.0, 0.0, 0.0, 0.0],
+                     "init": {"t": tb + fr["dt"], "pos": [0.0, 0.0], "orient": 0.0, "vel": 1.0},
+                     "pred": {"kind": "set", "init": tb + fr["dt"] + 1, "occs": []}}]})
+                call(bad.draw, rnd, q)   # raises half-way (invalid input); the renderer is then cleared explicitly
+                rnd.clear()
+                continue
+            if st_ == "video":
+                if not video_started:
+                    video_init(q)
+                    video_started = True
+                rnd.remove_dynamic()
+                rnd.clear()
+            got, glabs = draw_frame(rnd, sc, pps, q, fr["network"], fr.get("entry", "scenario.draw"))
+            if fr["network"]:
+                pps.draw(rnd, q)
             if mframes is not None:
-                exp, labs = expected_of(mframes[i]["patches"], obstacles, q)
+                exp, labs = expected_of(mframes[i]["patches"], tl[i][2], tl[i][1])
                 got = [ANY if j < len(exp) and exp[j] == ANY else x for j, x in enumerate(got)]
                 ctx.compare(case, {"patches": got, "labels": glabs}, {"patches": exp, "labels": labs},
-                            f"buffers of earlier frame {i} before its render vs CR.Draw.showFrames")
-            rnd.render(keep_static_artists=keep)
+                            f"buffers of earlier frame {i} ({st_}) before it is shown vs CR.Draw.runOps")
+            if st_ == "video":
+                rnd.render_dynamic()
+            else:
+                rnd.render(keep_static_artists=fr["keep"])
         except Exception as e:  # noqa
             return fail_exc(ctx, "draw_render_previous_frame", e, case)
     try:
-        if main_network:
-            sc.draw(rnd, p)
-        else:
-            rnd.draw_list(sc.obstacles, p)
+        apply_mutation(sc, case.get("mutate"))
+        preal = real_params({"dt": 0, "params": case.get("main_params", "fresh")})
+        if case.get("queries"):
+            read_only_queries(sc, pps, preal, tb)
+    except Exception as e:  # noqa
+        return fail_exc(ctx, "before_draw", e, case)
+    try:
+        if style == "video":
+            if not video_started:
+                video_init(preal)
+            rnd.remove_dynamic()
+            rnd.clear()
+        patches, labels_obs = draw_frame(rnd, sc, pps, preal, main_network, entry)
     except Exception as e:  # noqa
         if case.get("outside"):
             # an input outside the property's quantifier (named in the case): no verdict, but the model of the partial
@@ -892,27 +1213,38 @@ def run_draw_case(ctx, case, model=True):
             get_ax().cla()
             return
         return fail_exc(ctx, "draw_scenario", e, case)
-    patches = [patch_canon(x) for x in rnd.obstacle_patches]
-    labels_obs = [[canon(t.get_position()[0]), canon(t.get_position()[1]), t.get_text()] for t in rnd.dynamic_labels]
     n_border = sum(isinstance(c, mcoll.EllipseCollection) for c in rnd.static_collections)
     fills = [poly(pa.vertices) for c in rnd.static_collections if isinstance(c, mcoll.PolyCollection) for pa in c.get_paths()]
     n_static = len(rnd.static_artists)
     try:
         if main_network:
-            pps.draw(rnd, p)
+            if entry in ("draw_scenario", "per-object"):
+                rnd.draw_planning_problem_set(pps, preal)
+            elif entry == "renderer-params":
+                pps.draw(rnd)
+            else:
+                pps.draw(rnd, preal)
     except Exception as e:  # noqa
         return fail_exc(ctx, "draw_planning_problem_set", e, case)
     annos = [canon(list(a.xy)) for a in rnd.static_artists[n_static:] if isinstance(a, mtext.Annotation)]
     try:
-        rnd.render()
+        if style == "video":
+            rnd.render_dynamic()
+        elif case.get("savefig"):
+            with tempfile.TemporaryDirectory() as td:
+                rnd.render(filename=os.path.join(td, "frame.png"))
+        else:
+            rnd.render()
     except Exception as e:  # noqa
         return fail_exc(ctx, "render", e, case)
     texts_obs = light_texts(ax)
-    if case.get("raster"):
+    if case.get("raster") and style == "render":
         try:
             ax.figure.canvas.draw()
         except Exception as e:  # noqa
             return fail_exc(ctx, "rasterize", e, case)
+    if style == "video":
+        ax.cla()
     # ------------------------------------------------------------------ correspondence with the selection model
     by_poly = {json.dumps(lanelet_poly(l)): l.lanelet_id for l in net.lanelets}
     drawn_ids = sorted(by_poly.get(json.dumps(f), -1) for f in fills)
@@ -935,9 +1267,9 @@ def run_draw_case(ctx, case, model=True):
         ctx.compare(case, {"ok": n_border}, {"ok": m["ok"]["border_collections"] * m_networks} if "ok" in m else m,
                     "border-vertex EllipseCollections vs CR.Draw.drawNetC")
         if light_labels:
-            m = ctx.driver.ask("C19", "lights", {"show_label": tl.show_label, "lights": [
+            m = ctx.driver.ask("C19", "lights", {"show_label": tl_.show_label, "lights": [
                 {"has_position": x.position is not None, "active": bool(x.active),
-                 "state": str(x.get_state_at_time_step(tl.time_begin).value) if x.active else ""} for x in net.traffic_lights]})
+                 "state": str(x.get_state_at_time_step(tl_.time_begin).value) if x.active else ""} for x in net.traffic_lights]})
             ctx.compare(case, {"ok": texts_obs}, {"ok": sorted(m["ok"])} if "ok" in m else m,
                         "traffic-light label texts after render vs CR.Draw.lightLabelsC")
         if fill_on:
@@ -987,6 +1319,7 @@ def run_case(ctx, case, model=True):
 def run(ctx):
     import glob
     import matplotlib.pyplot as plt
+    ctx.hist["dimension-table-entries"] = D.check()  # InfraError (exit 2) if the code has grown past the table
     for pth in sorted(glob.glob(os.path.join(CORPUS_DIR, "C19", "*.json"))):
         run_case(ctx, json.load(open(pth)))
     for _ in range(ctx.n(260)):
